@@ -31,7 +31,7 @@ Definition DVX_RELOOP := 122.    (* the owner cleared DIRTY with the `xor ... ac
 
 Inductive dkind := KindAdd | KindOr | KindReplace.
 Definition is_replace (k : dkind) : bool := match k with KindReplace => true | _ => false end.
-Record cfg := mkCfg { ck : dkind; cqos : Z }.
+Record cfg := mkCfg { ck : dkind }.
 
 Definition mo_code (o : morder) : Z :=
   match o with Relaxed => 0 | Consume => 1 | Acquire => 2 | Release => 3 | AcqRel => 4 | SeqCst => 5 end.
@@ -47,7 +47,12 @@ Definition apply_merge (k : dkind) (p v : Z) : Z :=
 (* source.c:223 + queue.c:4826-4874: dx_wakeup(ds, 0, DISPATCH_WAKEUP_MAKE_DIRTY) reaching the rmw loop with
    target = DISPATCH_QUEUE_WAKEUP_TARGET (CONSUME_2 is added at queue.c:4834) *)
 Definition wake_flags : Z := Z.lor DISPATCH_WAKEUP_MAKE_DIRTY DISPATCH_WAKEUP_CONSUME_2.
-Definition wake_body (c : cfg) (old : Z) : rmw_outcome := wakeup_loop 0 (cqos c) wake_flags 1 old DISPATCH_QUEUE_ENQUEUED.
+Definition wake_body (qos old : Z) : rmw_outcome := wakeup_loop 0 qos wake_flags 1 old DISPATCH_QUEUE_ENQUEUED.
+(* the qos merged into the word is _dispatch_queue_wakeup_qos(ds, 0), a function of the source's priority (which changes at
+   activation): any dispatch_qos_t value (4 bits) is admitted *)
+Definition qos_values : list Z := [0; 1; 2; 3; 4; 5; 6; 7; 8; 9; 10; 11; 12; 13; 14; 15].
+Definition wake_commits (old new : Z) : bool :=
+  existsb (fun q => match wake_body q old with Commit n _ => n =? new | _ => false end) qos_values.
 Definition word_dirty (w : Z) : bool := nz (f_dq_state_is_dirty w).
 
 Inductive pc :=
@@ -99,15 +104,11 @@ Definition tstep (c : cfg) (p : pc) (e : event) : option pc :=
       else None
   | PWState => if ev_is e DV_LOAD MO_RELAXED OFF_STATE then Some (PWBody (ea e)) else None
   | PWBody old =>
-      match wake_body c old with
-      | Commit new _ =>
-          if ev_is e DV_CASW (mo_code wakeup_loop_order) OFF_STATE && (eb e =? new)
-          then Some (if eok e =? 1 then PMRet else PWBody (ea e)) else None
-      | _ => None
-      end
+      if ev_is e DV_CASW (mo_code wakeup_loop_order) OFF_STATE && wake_commits old (eb e)
+      then Some (if eok e =? 1 then PMRet else PWBody (ea e)) else None
   | PWOut =>
       if ev_kind e DVU_RET then Some PIdle
-      else if eoff e =? OFF_STATE then Some PWOut
+      else if (ek e <? DV_FUTEX_WAIT) && (eoff e =? OFF_STATE) then Some PWOut    (* atomic operations on dq_state *)
       else None
   | PMRet =>
       (* after a commit that set ENQUEUED the source is pushed on its target queue (dx_push, the target lane's business);
@@ -226,16 +227,12 @@ Definition gstep (c : cfg) (s : gst) (t : Z) (e : event) : option gst :=
     | PWPend => if ev_is e DV_LOAD MO_RELAXED OFF_PEND then load_pend else same
     | PWState => same
     | PWBody old =>
-        match wake_body c old with
-        | Commit new _ =>
-            (* weak CAS on dq_state (a word this model does not carry): may fail; when it commits, the source is
-               enqueued-or-dirty iff the committed word says so *)
-            if eok e =? 1
-            then base (pend s) (cancelled s) (susp s) (rq s || word_dirty new) (owner s) (latched s) (running s) (merged s)
-                      (dropped s) (delivered s)
-            else same
-        | _ => None
-        end
+        (* weak CAS on dq_state (a word this model does not carry): may fail; when it commits, the source is
+           enqueued-or-dirty if the committed word (an output of the generated loop body, checked by tstep) is DIRTY *)
+        if eok e =? 1
+        then base (pend s) (cancelled s) (susp s) (rq s || word_dirty (eb e)) (owner s) (latched s) (running s) (merged s)
+                  (dropped s) (delivered s)
+        else same
     | PWOut => same
     | PMRet => same
     | PD0 =>
@@ -283,10 +280,10 @@ Fixpoint zsum (l : list Z) : Z := match l with [] => 0 | x :: r => x + zsum r en
 Fixpoint zlor (l : list Z) : Z := match l with [] => 0 | x :: r => Z.lor x (zlor r) end.
 Definition quiescent (s : gst) : Prop := forall t, pcs s t = PIdle.
 
-(* for the correspondence driver: sv = kind + 4 * wakeup qos; result (index of the first rejected event or -1,
+(* for the correspondence driver: sv = kind; result (index of the first rejected event or -1,
    1 if the thread ended outside any call and outside the drain lock) *)
 Definition cfg_of (sv : Z) : cfg :=
-  mkCfg (if sv mod 4 =? 0 then KindAdd else if sv mod 4 =? 1 then KindOr else KindReplace) (sv / 4).
+  mkCfg (if sv =? 0 then KindAdd else if sv =? 1 then KindOr else KindReplace).
 Definition pc_idle (p : pc) : Z := match p with PIdle => 1 | _ => 0 end.
 Definition conform (sv : Z) (tr : list event) : Z * Z :=
   let '(p, i) := run_trace (tstep (cfg_of sv)) PIdle tr 0 in (i, pc_idle p).
